@@ -28,10 +28,10 @@ from harness.common import sim
 PROP = "C41"
 LEAN_MODULES = ["LunaVerif.Props.C41"]
 DRIVER = "Driver/C41.lean"
-REQUIRED_THEOREMS_FULL = [
+REQUIRED_THEOREMS = [
     "reset_removes_link_ready_next_cycle", "no_u0_during_reset", "reset_forces_rx_detect_reset",
     "link_ready_only_after_training", "link_ready_only_after_ts2_rx", "link_ready_only_after_lfps_sent",
-    "link_ready_only_after_handshake_since_entry", "timeouts_respected", "scrambling_in_u0",
+    "link_ready_only_after_handshake_since_entry", "timeouts_respected", "timeout_leaves", "scrambling_in_u0",
 ]
 RULE = ("cases = (clock frequency in {1 kHz .. 1 MHz}, loosen_requirements, LUNA_COMPLIANCE) x stimulus; "
         "stimuli: scripted shortest paths to every FSM state followed by warm resets / time-out probes at "
@@ -46,7 +46,6 @@ ASSUMPTIONS = [
     "in_usb_reset; the port power_on_reset is not connected to anything in the gateware)",
 ]
 PARTIAL = ""
-REQUIRED_THEOREMS = ["reset_forces_rx_detect_reset"]
 
 IN = ["in_usb_reset", "trigger_link_recovery", "phy_ready", "disable_scrambling", "link_partner_detected",
       "no_link_partner_detected", "lfps_polling_detected", "lfps_cycles_sent", "ts1_detected",
